@@ -27,7 +27,7 @@ ASSUMPTIONS = [
     'no decode-and-compare round trip is asserted (the library has no unescape function)',
     'delimiter sets are 5-6 distinct punctuation characters',
 ]
-TECHNIQUE = 'exhaustive bounded enumeration + Hypothesis text over delimiter-rich alphabets; tokenizer / idempotence / metamorphic separator-count oracles'
+TECHNIQUE = 'exhaustive bounded enumeration + Hypothesis text over delimiter-rich alphabets + coverage-guided fuzzing (atheris); tokenizer / idempotence / metamorphic separator-count oracles'
 LEVEL_TEXT = ('exploration, exhaustive inside the stated bound: every string up to length 5/6 over a 16/17-symbol alphabet for '
               'the default sets, sampled beyond (length <= 60, drawn delimiter sets, every textual class of every version)')
 LEVEL_NOTE = 'trusted: the 20-line reference tokenizer (hv/refmodel.py) and its regex twin used for speed; highlights are not exercised in the enumeration'
